@@ -8,7 +8,7 @@ A case is a *history*:
                     return from main / std::exit / _exit (no static destructor)
      killed         process that instantiates the lock and is SIGKILLed outside any section
      mfront         the real `mfront --interface=generic` of the hooks tree on a tiny file
-  phase 2: 2..8 concurrent actors (1..5 guarded sections each, hook-controlled dwell time
+  phase 2: 2..8 (thorough: ..16) concurrent actors (1..5 guarded sections each, hook-controlled dwell time
      0..5 ms inside a section, gaps, start offsets; event based start barrier) and 0..1
      concurrent real mfront.
 All processes run under a dedicated uid (64000 + pid of this unit % 1000) so the semaphore
@@ -397,8 +397,8 @@ def strategy():
     return st.fixed_dictionaries({
         "phase1": st.lists(run1, min_size=0, max_size=6),
         # (explicit size draw: st.lists alone is heavily biased towards min_size)
-        "phase2": st.sampled_from([2, 2, 3, 4, 5, 6, 8][:max(1, nmax - 1)]).flatmap(
-            lambda n: st.lists(act2, min_size=min(n, nmax), max_size=min(n, nmax))),
+        "phase2": st.sampled_from([n for n in (2, 2, 3, 4, 5, 6, 8, 12, 16) if n <= max(2, nmax)]).flatmap(
+            lambda n: st.lists(act2, min_size=n, max_size=n)),
         "exits": st.sampled_from(["fast", "fast", "any"]),
         "mfront2": st.booleans(),
         "mfront2_dwell_us": dwell,
